@@ -86,6 +86,8 @@ def file_it(meta, results, prop, mdir, name):
             p = f"{mdir}/{f}"
             if os.path.isfile(p):
                 shutil.copy(p, dst + "/demo/" + f)
+    if os.path.exists(f"{mdir}/STRENGTHENED"):
+        meta["strengthened"] = open(f"{mdir}/STRENGTHENED").read()
     notes = open(f"{mdir}/NOTES.md").read() if os.path.exists(f"{mdir}/NOTES.md") else ""
     meta["needs_to_manifest"] = notes[:3000]
     meta["what_was_run"] = ["git apply patch in scratch worktree; cargo build --offline (-D warnings); cargo test --workspace --no-fail-fast --offline; demo with and without the change",
